@@ -221,7 +221,7 @@ def handle (toks : List String) : String :=
           | none => model
         | _, _ =>
           -- nested schemas: byte order of consecutive rows = `cmpRowN` (where the theorem applies)
-          if fs.all (fun f => unionFree f.1) then
+          if fs.all (fun f => wfTy f.1) then
             let pairs := rs.zip (rs.drop 1)
             if pairs.any (fun (a, b) => compareBytes (encodeRowN fs a) (encodeRowN fs b) != cmpRowN fs a b) then
               s!"MODEL-SPEC-MISMATCH nested-order model={model}"
